@@ -380,6 +380,13 @@ DoScaleR ==  \* A * c : multiply in the input space
     LET A == TopE(1)[1] IN Combine("ScaleR", <<c>>, 1, TRUE, ComposeOf(<<A, ScalarMul(Sh(A)[2], c)>>))
 DoConj ==
   Len(stack) >= 1 /\ Combine("Conj", <<>>, 1, TRUE, Mk("Conj", <<>>, TopE(1)))
+\* the constructors called directly with n operands: Add([A, B, C]) and Compose([A, B, C])  (A + B + C nests two Adds)
+DoAddN ==
+  \E n \in Arities : Len(stack) >= n /\
+    Combine("AddN", <<>>, n, FitAdd(TopE(n)), Mk("Add", <<>>, TopE(n)))
+DoComposeN ==
+  \E n \in Arities : Len(stack) >= n /\
+    Combine("ComposeN", <<>>, n, FitCompose(TopE(n)), ComposeOf(TopE(n)))
 DoHstack ==
   \E n \in Arities, ax \in StackAxes : Len(stack) >= n /\
     Combine("Hstack", <<ax>>, n, FitHstack(TopE(n), ax), Mk("Hstack", <<ax>>, TopE(n)))
@@ -404,7 +411,7 @@ TakeN ==
      /\ last' = Call("N", <<>>, 1, "ok")
 
 Next == Push \/ Dup \/ DoMul \/ DoAdd \/ DoSub \/ DoScaleL \/ DoScaleR \/ DoConj
-        \/ DoHstack \/ DoVstack \/ DoDiag \/ TakeH \/ TakeN
+        \/ DoHstack \/ DoVstack \/ DoDiag \/ DoAddN \/ DoComposeN \/ TakeH \/ TakeN
 Spec == Init /\ [][Next]_vars
 
 \* ------------------------------------------------------------------ properties
